@@ -207,14 +207,20 @@ def run_model(exe, lines):
     return out
 
 
-def run_impl(exe, pid, lines, deadline_ms=10000, env=None, cwd=None):
-    """Runs the implementation driver; restarts it after a hang (reported as status 2)."""
+def run_impl(exe, pid, lines, deadline_ms=10000, env=None, cwd=None, max_hangs=40):
+    """Runs the implementation driver; restarts it after a hang (reported as status 2). After max_hangs
+    hangs in one call the remaining cases are not run and are reported with status 7 (skipped), so that a
+    tree that stalls on a whole class of inputs costs minutes, not hours."""
     res = []
     i = 0
+    hangs = 0
     e = dict(GOENV)
     if env:
         e.update(env)
     while i < len(lines):
+        if hangs >= max_hangs:
+            res.extend(["7"] * (len(lines) - i))
+            break
         p = subprocess.run([exe, pid, "-deadline", str(deadline_ms)], input="\n".join(lines[i:]) + "\n",
                            stdout=subprocess.PIPE, stderr=subprocess.PIPE, text=True, env=e, cwd=cwd)
         out = p.stdout.split("\n")
@@ -223,6 +229,7 @@ def run_impl(exe, pid, lines, deadline_ms=10000, env=None, cwd=None):
         res.extend(out)
         i += len(out)
         if p.returncode == 3:
+            hangs += 1
             continue  # hang reported for the last case printed; carry on with the rest
         if p.returncode != 0 or not out:
             raise SystemExit("implementation driver failed (rc=%s) after %d cases: %s" % (p.returncode, i, p.stderr[-2000:]))
